@@ -1,6 +1,10 @@
 (* ErrorModelProofs.v -- lemmas about model/ErrorModel.v: which invalid arguments are reported, which are silently
    accepted (witnesses), the export prologues, and the shape of the PathsD wrappers on valid input (C16). *)
-From Clip Require Import base.Geom base.FloatModel model.Scale model.ErrorModel proofs.ScaleProofs.
+From Clip Require Import base.Geom.
+From Clip Require Import base.FloatModel.
+From Clip Require Import model.Scale.
+From Clip Require Import model.ErrorModel.
+From Clip Require Import proofs.ScaleProofs.
 From Coq Require Import ZArith List Floats Bool Lia.
 Import ListNotations.
 Local Open Scope Z_scope.
